@@ -48,10 +48,15 @@ def variants(prop, case):
         return [{"via": "flat"}, {"via": RVIAS[h % len(RVIAS)], "how": ["fn", "nps"][(h // 16) % 2]}]
     if op == "rl_roundtrip":
         return [{"input": ["array", "list"][h % 2], "conv": ["asarray", "array"][(h // 2) % 2]}]
+    RLV = ["from_array", "concat2", "concat3", "pieces", "ufunc", "astype"]
     if op == "rl_getitem":
-        return [{"npint": bool(h & 1), "listkind": ["list", "array"][(h // 2) % 2]}]
+        return [{"npint": bool(h & 1), "listkind": ["list", "array"][(h // 2) % 2], "via": "from_array"},
+                {"npint": bool(h & 1), "listkind": ["list", "array"][(h // 2) % 2], "via": RLV[1 + (h // 4) % 5]}]
     if op in ("rl_ufunc", "rl_reduce"):
-        return [{"how": ["ufunc", "operator"][h % 2] if op == "rl_ufunc" else ["np", "method"][h % 2]}]
+        hw = ["ufunc", "operator"][h % 2] if op == "rl_ufunc" else ["np", "method"][h % 2]
+        return [{"how": hw, "via": "from_array"}, {"how": hw, "via": RLV[1 + (h // 4) % 5]}]
+    if op == "rl_concat":
+        return [{"via": "from_array"}, {"via": RLV[1 + (h // 4) % 5]}]
     if op == "rl2_getitem":
         return [{"tuple1": bool(h & 1)}]
     if op == "rl2_func":
